@@ -75,6 +75,11 @@ type ChunkSpec struct {
 	// Empty > 0: every Empty-th Read returns (0, nil) - legal for an io.Reader
 	// (a polled device with nothing ready), and io.ReadFull simply reads again
 	Empty int `json:"empty,omitempty"`
+	// Delay > 0: every Delay-th Read takes DelaySec seconds of (simulated) time
+	// before it returns - a slow device. The bubble's clock is fake, so minutes
+	// cost microseconds; a workflow may not give up on a slow but healthy source.
+	Delay    int `json:"delay,omitempty"`
+	DelaySec int `json:"delay_sec,omitempty"`
 }
 
 // FaultSpec describes the failure of the device.
@@ -100,6 +105,9 @@ type RunnerSpec struct {
 	Seed   uint64          `json:"seed,omitempty"`
 	Dir    []ItemDirective `json:"dir,omitempty"`
 	Random int             `json:"random,omitempty"` // >0: every cell fails with probability Random/1000 and Q is random
+	// SlowEvery > 0: every SlowEvery-th runner call takes SlowSec simulated seconds
+	SlowEvery int `json:"slow_every,omitempty"`
+	SlowSec   int `json:"slow_sec,omitempty"`
 }
 
 // RunConfig is one fully explicit simulated execution: together with Picks it
